@@ -18,6 +18,15 @@ __CPROVER_ensures(this == v ==> (this->_flags == __CPROVER_old(this->_flags) && 
                                  V_LEVEL(this) == __CPROVER_old(V_LEVEL(this))))
 ;
 
+/* Value::Value(Value&& v) noexcept : move construction; the source is left null */
+void _ZN4bloc5ValueC1EOS0_(struct Value *this, struct Value *v)
+__CPROVER_requires(__exc == 0)
+__CPROVER_assigns(VALUE_FIELDS(this), v->_flags)
+__CPROVER_ensures(__exc == 0)
+__CPROVER_ensures(this->_flags == __CPROVER_old(v->_flags) && V_MAJOR(this) == __CPROVER_old(V_MAJOR(v)) && V_MINOR(this) == __CPROVER_old(V_MINOR(v)) &&
+                  V_LEVEL(this) == __CPROVER_old(V_LEVEL(v)) && this->_value.i == __CPROVER_old(v->_value.i) && v->_flags == 0)
+;
+
 /* void Value::_clear() noexcept : releases the payload, clears NOTNULL */
 void _ZN4bloc5Value6_clearEv(struct Value *this)
 __CPROVER_requires(__exc == 0)
